@@ -57,7 +57,7 @@ class EvalInterp(Interp):
                 if CLASS_NAMES[c] in INSTANCE_OF[atom]:
                     return True
             return False
-        return NotImplemented
+        return super().builtin_hook(name, args, e)
 
     def _boolean(self, args, node):
         v = args[0]
@@ -97,10 +97,10 @@ class EvalInterp(Interp):
                 return Sym('result', tag, self.truths.get(tag, True), 'float')
             cls = {'va': 'ValueArgsError', 'err': 'TypeError', 'rt': 'BareScriptRuntimeError', 'pe': 'BareScriptParserError'}[b]
             raise RaiseSig(cls, (Sym('message', tag),), e)
-        return NotImplemented
+        return super().call_value_hook(fn, args, e)
 
     def method_hook(self, base, m, args, e):
-        return NotImplemented
+        return super().method_hook(base, m, args, e)
 
     def evaluate(self, func, expr, locals_, globals_, builtins, debug='on'):
         """-> ('value', v) | ('raise', cls) ; self.events filled"""
